@@ -182,7 +182,7 @@ def shapes(tier, rnd):
         [('ok', 2, 'method', False), ('ok', 0, 'method', False), ('ok', 1, 'method', False)],
     ]
     out += base
-    n_rand = 14 if tier == 'quick' else 120
+    n_rand = 30 if tier == 'quick' else 160
     for _ in range(n_rand):
         n = rnd.choice([2, 3, 3] if tier == 'quick' else [2, 3, 4, 4])
         sh = []
